@@ -163,6 +163,6 @@ RUN_ASSUME = [
 PROPS = {
     "C01": {"engine": "run", "modelled": RUN_MODELLED + RUN_BINARY, "assumptions": RUN_ASSUME, "extra_props": ["C01Sha"]},
     "C02": {"engine": "run", "modelled": RUN_MODELLED, "assumptions": RUN_ASSUME},
-    "C10": {"engine": "run", "modelled": RUN_MODELLED + RUN_BINARY + RUN_JSON, "assumptions": RUN_ASSUME, "extra_engines": ["json"]},
+    "C10": {"engine": "run", "modelled": RUN_MODELLED + RUN_BINARY + RUN_JSON, "assumptions": RUN_ASSUME, "extra_engines": ["json"], "extra_props": ["C10Json"]},
     "C14": {"engine": "run", "modelled": RUN_MODELLED, "assumptions": RUN_ASSUME},
 }
